@@ -294,8 +294,7 @@ theorem readBin_inv {fx fm : Bool} {nv nc : Nat} (pol : Policy) (inp : Bytes) (h
   · rename_i c hc; exact rinv_err (msgBin_err _ _ _ _ (by omega) hc)
   · split
     · exact rinv_err (codeOK_plain (.inl rfl))
-    · dsimp only
-      split
+    · split
       · split
         · rename_i c hc; exact rinv_err (optsBin_err _ _ _ hc)
         · exact msgEvent_inv _ _ _ (body_inv _ _ _ _ hs)
